@@ -9,7 +9,7 @@ theorem close_noop (s : State) (t : Nat) (h : ∀ x ∈ s.open_, x.id ≠ t) : S
     rw [List.filter_eq_self]; intro x hx; simpa using h x hx
   rw [this]
 
-theorem open_ids_of_find_none {c : Sys} {s : State} (h : R c s) (t : Nat)
+theorem open_ids_of_find_none {c : Sys} {s : State} {cl : List Nat} (h : Rx cl c s) (t : Nat)
     (hf : c.reg.find? (·.id = t) = none) : ∀ x ∈ s.open_, x.id ≠ t := by
   intro x hx
   have hm := h.mem_open hx
@@ -27,8 +27,8 @@ theorem isStoreOf_flatMap {c : Sys} (i : Inv c) {t : Nat} {st : Store} (hst : c.
     apply i.domAll
     exact List.ne_nil_of_mem (i.tx_sub_all hst hv)
 
-theorem step_rollback {c : Sys} {s : State} (h : R c s) (t : Nat) :
-    (c.rollback t).2 = (Spec.rollback s t).2 ∧ R (c.rollback t).1 (Spec.rollback s t).1 := by
+theorem step_rollback {c : Sys} {s : State} {cl : List Nat} (h : Rx cl c s) (t : Nat) :
+    (c.rollback t).2 = (Spec.rollback s t).2 ∧ Rx cl (c.rollback t).1 (Spec.rollback s t).1 := by
   unfold Sys.rollback Spec.rollback
   by_cases htm : t = mainTx
   · simp only [htm, if_true]
@@ -53,7 +53,7 @@ theorem step_rollback {c : Sys} {s : State} (h : R c s) (t : Nat) :
         have hd : (c.rollback t).1 = discardG c t (c.dom.flatMap (fun k => st k)) (c.dom.flatMap (fun k => st k)) := by
           simp only [Sys.rollback, htm, if_false, hf, hst, Sys.dropTxStore, discardG]
           split <;> rfl
-        have : R (discardG c t (c.dom.flatMap (fun k => st k)) (c.dom.flatMap (fun k => st k))) (Spec.close s t) :=
+        have : Rx cl (discardG c t (c.dom.flatMap (fun k => st k)) (c.dom.flatMap (fun k => st k))) (Spec.close s t) :=
           close_R_of_inv h t _ (discard_inv h.inv hst hr (fun v hv => hv)) rfl rfl rfl rfl
             (fun t' ht' => by simp [discardG, ht'])
         rw [← hd] at this
